@@ -178,6 +178,20 @@ class Runner:
         elif a == "feed":
             vc = self._vc(act["c"])
             w.feed(vc, [concrete(m) for m in act["ms"]])
+        elif a == "garbage":
+            vc = self._vc(act["c"])
+            w.s.emit("fed", c=vc.c, m=None)
+            vc.sock.feed(msgs.hdr_bytes(272, 0x80, 4, 1, 1, 0))      # header with length field 0: unparsable, the reader closes
+            w.run()
+        elif a == "frag":
+            vc = self._vc(act["c"])
+            data = concrete(act["m"])
+            n, i = act["n"], act["i"]
+            cut = [len(data) * j // n for j in range(n + 1)]
+            w.s.emit("fed", c=vc.c, m=None)
+            vc.sock.feed(data[cut[i - 1]:cut[i]])
+            vc.frag = (act["m"], i, n) if i < n else None
+            w.run()
         elif a == "peer_close":
             w.peer_close(self._vc(act["c"]))
         elif a == "peer_reset":
@@ -394,14 +408,26 @@ class Gen:
     def next_action(self):
         rng = self.rng
         w = self.r.w
+        # runs of silence: several clock ticks in a row (timeouts need the node to be left alone)
+        if getattr(self, "pending_ticks", 0) > 0:
+            self.pending_ticks -= 1
+            return {"a": "tick"}
         open_vcs = [vc for c, vc in sorted(self.r.vcs.items()) if not vc.closed and not vc.sock.remote_closed]
         connecting = [vc for vc in open_vcs if vc.sock.connecting]
         usable = [vc for vc in open_vcs if not vc.sock.connecting and (vc.sock.connected)]
         choices = [("tick", 5)]
         if w.npc + len(w.s.net.listeners[0].backlog if w.s.net.listeners else []) < self.max_conn - 1 and w.s.net.listeners:
             choices.append(("connect", 2 if usable else 5))
+        pending = [vc for vc in usable if getattr(vc, "frag", None)]
+        if pending:                      # a half-delivered message: deliver the rest (or let time pass / lose the peer)
+            vc = pending[0]
+            x = rng.random()
+            if x < 0.6:
+                m, i, n = vc.frag
+                return {"a": "frag", "c": vc.c, "m": m, "i": i + 1, "n": n}
+            return {"a": "tick"} if x < 0.9 else {"a": "peer_close", "c": vc.c}
         if usable:
-            choices += [("feed", 12), ("peer_close", 1), ("peer_reset", 1)]
+            choices += [("feed", 12), ("peer_close", 1), ("peer_reset", 1), ("garbage", 0), ("frag", 0)]
         if connecting:
             choices.append(("connect_result", 6))
         if self.r.held:
@@ -416,14 +442,25 @@ class Gen:
         choices = [(nm, aw.get(nm, wt)) for nm, wt in choices if aw.get(nm, wt) > 0]
         names, weights = zip(*choices)
         a = rng.choices(names, weights=weights)[0]
+        if a == "tick" and rng.random() < 0.35:
+            self.pending_ticks = rng.randint(1, 4)
         if a == "tick" or a == "connect":
             return {"a": a}
         if a == "feed":
             vc = rng.choice(usable)
             n = 1 if (rng.random() < 0.7 or self.focus.get("single")) else 2
             return {"a": "feed", "c": vc.c, "ms": [self.message(vc) for _ in range(n)]}
-        if a in ("peer_close", "peer_reset"):
+        if a in ("peer_close", "peer_reset", "garbage"):
             return {"a": a, "c": rng.choice(usable).c}
+        if a == "frag":
+            vc = rng.choice(usable)
+            hbh, e2e = self._ids()
+            host = getattr(vc, "dialled", None) or rng.choice(self.hosts)
+            for p in self.r.full_cfg["peers"]:
+                po = w.peers[p["name"]]
+                if po.connection is not None and w.c_of(po.connection) == vc.c:
+                    host = p["host"]
+            return {"a": "frag", "c": vc.c, "m": M("DW", True, hbh, e2e, oh=host), "i": 1, "n": rng.choice([2, 3, 4])}
         if a == "connect_result":
             return {"a": a, "c": rng.choice(connecting).c, "err": rng.choice([0, 0, 0, 111])}
         if a == "send":
